@@ -15,6 +15,7 @@ import (
 
 func init() {
 	register(&PropertyCheck{ID: "C16", Level: "other", Run: checkC16, Canaries: []Canary{
+		{Name: "rf8-header-only-packets-share-a-writer", Silent: true, Edits: []Edit{{"packet.go", "\treturn p, nil\n}\n", "\treturn p, nil\n}\n\n// headerString returns the short readable form shared by packets\n// without variable header, e.g. PINGREQ ---- 2 bytes\nfunc headerString(fixed bits, size int) string {\n\treturn fmt.Sprintf(\"%s %v bytes\", firstByte(fixed).String(), size)\n}\n\n// fillHeaderOnly fills b from position i with a fixed header\n// announcing no remaining data. Returns the position after the\n// header.\nfunc fillHeaderOnly(b []byte, i int, fixed bits) int {\n\ti += fixed.fill(b, i)    // firstByte header\n\ti += vbint(0).fill(b, i) // remaining length none\n\treturn i\n}\n\n// writeHeaderOnly writes a packet consisting of the fixed header only\n// in one write.\nfunc writeHeaderOnly(w io.Writer, fixed bits) (int64, error) {\n\tb := make([]byte, fillHeaderOnly(_LEN, 0, fixed))\n\tfillHeaderOnly(b, 0, fixed)\n\tn, err := w.Write(b)\n\treturn int64(n), err\n}\n"}, {"pingreq.go", "\t\"fmt\"\n\t\"io\"\n)\n\nfunc NewPingReq() *PingReq {\n\treturn &PingReq{fixed: bits(PINGREQ)}\n}\n\ntype PingReq struct {\n\tfixed bits\n}\n\nfunc (p *PingReq) String() string {\n\treturn fmt.Sprintf(\"%s %v bytes\",\n\t\tfirstByte(p.fixed).String(),\n\t\tp.width(),\n\t)\n}\n\nfunc (p *PingReq) WriteTo(w io.Writer) (int64, error) {\n\tb := make([]byte, p.width())\n\tp.fill(b, 0)\n\tn, err := w.Write(b)\n\treturn int64(n), err\n}\n\nfunc (p *PingReq) width() int {\n\treturn p.fill(_LEN, 0)\n}\n\nfunc (p *PingReq) fill(b []byte, i int) int {\n\ti += p.fixed.fill(b, i)  // firstByte header\n\ti += vbint(0).fill(b, i) // remaining length none\n\treturn i", "\t\"io\"\n)\n\nfunc NewPingReq() *PingReq {\n\treturn &PingReq{fixed: bits(PINGREQ)}\n}\n\ntype PingReq struct {\n\tfixed bits\n}\n\nfunc (p *PingReq) String() string {\n\treturn headerString(p.fixed, p.width())\n}\n\nfunc (p *PingReq) WriteTo(w io.Writer) (int64, error) {\n\treturn writeHeaderOnly(w, p.fixed)\n}\n\nfunc (p *PingReq) width() int {\n\treturn p.fill(_LEN, 0)\n}\n\nfunc (p *PingReq) fill(b []byte, i int) int {\n\treturn fillHeaderOnly(b, i, p.fixed)"}, {"pingresp.go", "\t\"fmt\"\n\t\"io\"\n)\n\nfunc NewPingResp() *PingResp {\n\treturn &PingResp{fixed: bits(PINGRESP)}\n}\n\ntype PingResp struct {\n\tfixed bits\n}\n\nfunc (p *PingResp) String() string {\n\treturn fmt.Sprintf(\"%s %v bytes\",\n\t\tfirstByte(p.fixed).String(),\n\t\tp.width(),\n\t)\n}\n\nfunc (p *PingResp) WriteTo(w io.Writer) (int64, error) {\n\tb := make([]byte, p.width())\n\tp.fill(b, 0)\n\tn, err := w.Write(b)\n\treturn int64(n), err\n}\n\nfunc (p *PingResp) width() int {\n\treturn p.fill(_LEN, 0)\n}\n\nfunc (p *PingResp) fill(b []byte, i int) int {\n\ti += p.fixed.fill(b, i)  // firstByte header\n\ti += vbint(0).fill(b, i) // remaining length none\n\treturn i", "\t\"io\"\n)\n\nfunc NewPingResp() *PingResp {\n\treturn &PingResp{fixed: bits(PINGRESP)}\n}\n\ntype PingResp struct {\n\tfixed bits\n}\n\nfunc (p *PingResp) String() string {\n\treturn headerString(p.fixed, p.width())\n}\n\nfunc (p *PingResp) WriteTo(w io.Writer) (int64, error) {\n\treturn writeHeaderOnly(w, p.fixed)\n}\n\nfunc (p *PingResp) width() int {\n\treturn p.fill(_LEN, 0)\n}\n\nfunc (p *PingResp) fill(b []byte, i int) int {\n\treturn fillHeaderOnly(b, i, p.fixed)"}, {"undefined.go", "\treturn fmt.Sprintf(\"%s %v bytes\",\n\t\tfirstByte(p.fixed).String(), 0,\n\t)", "\treturn headerString(p.fixed, 0)"}}},
 		{Name: "rf7-writeto-through-marshal-helper", Silent: true, Edits: []Edit{{"auth.go", "\tb := make([]byte, p.width())\n\tp.fill(b, 0)\n\tn, err := w.Write(b)\n\treturn int64(n), err", "\treturn writeTo(w, p)"}, {"connack.go", "\t// allocate full size of entire packet\n\tb := make([]byte, p.fill(_LEN, 0))\n\tp.fill(b, 0)\n\tn, err := w.Write(b)\n\treturn int64(n), err", "\treturn writeTo(w, p)"}, {"connect.go", "\t// allocate full size of entire packet\n\tb := make([]byte, p.fill(_LEN, 0))\n\tp.fill(b, 0)\n\n\tn, err := w.Write(b)\n\treturn int64(n), err", "\treturn writeTo(w, p)"}, {"disconnect.go", "\tb := make([]byte, p.width())\n\tp.fill(b, 0)\n\tn, err := w.Write(b)\n\treturn int64(n), err", "\treturn writeTo(w, p)"}, {"packet.go", "\t}\n}\n", "\t}\n}\n\n// filler is implemented by all control packets that can be written\n// in wire format. fill follows the same contract as wireType.fill, a\n// nil buffer only calculates the width.\ntype filler interface {\n\tfill(b []byte, i int) int\n}\n\n// marshal returns the packet in wire format. The buffer is allocated\n// to the full size of the entire packet.\nfunc marshal(p filler) []byte {\n\tb := make([]byte, p.fill(_LEN, 0))\n\tp.fill(b, 0)\n\treturn b\n}\n\n// writeTo writes the packet in wire format to the given writer using\n// one call to Write. Shared by the WriteTo methods of all packets.\nfunc writeTo(w io.Writer, p filler) (int64, error) {\n\tn, err := w.Write(marshal(p))\n\treturn int64(n), err\n}\n"}, {"pingreq.go", "\tb := make([]byte, p.width())\n\tp.fill(b, 0)\n\tn, err := w.Write(b)\n\treturn int64(n), err", "\treturn writeTo(w, p)"}, {"pingresp.go", "\tb := make([]byte, p.width())\n\tp.fill(b, 0)\n\tn, err := w.Write(b)\n\treturn int64(n), err", "\treturn writeTo(w, p)"}, {"puback.go", "\tb := make([]byte, p.fill(_LEN, 0))\n\tp.fill(b, 0)\n\tn, err := w.Write(b)\n\treturn int64(n), err", "\treturn writeTo(w, p)"}, {"pubcomp.go", "\tb := make([]byte, p.fill(_LEN, 0))\n\tp.fill(b, 0)\n\tn, err := w.Write(b)\n\treturn int64(n), err", "\treturn writeTo(w, p)"}, {"publish.go", "\tb := make([]byte, p.fill(_LEN, 0))\n\tp.fill(b, 0)\n\tn, err := w.Write(b)\n\treturn int64(n), err", "\treturn writeTo(w, p)"}, {"pubrec.go", "\tb := make([]byte, p.fill(_LEN, 0))\n\tp.fill(b, 0)\n\tn, err := w.Write(b)\n\treturn int64(n), err", "\treturn writeTo(w, p)"}, {"pubrel.go", "\tb := make([]byte, p.fill(_LEN, 0))\n\tp.fill(b, 0)\n\tn, err := w.Write(b)\n\treturn int64(n), err", "\treturn writeTo(w, p)"}, {"suback.go", "\tb := make([]byte, p.width())\n\tp.fill(b, 0)\n\tn, err := w.Write(b)\n\treturn int64(n), err", "\treturn writeTo(w, p)"}, {"subscribe.go", "\tb := make([]byte, p.width())\n\tp.fill(b, 0)\n\tn, err := w.Write(b)\n\treturn int64(n), err", "\treturn writeTo(w, p)"}, {"unsuback.go", "\tb := make([]byte, p.width())\n\tp.fill(b, 0)\n\tn, err := w.Write(b)\n\treturn int64(n), err", "\treturn writeTo(w, p)"}, {"unsubscribe.go", "\tb := make([]byte, p.width())\n\tp.fill(b, 0)\n\tn, err := w.Write(b)\n\treturn int64(n), err", "\treturn writeTo(w, p)"}}},
 		{Name: "encoder-repairs-reserved-flag-bits", Rule: "R16.1", Where: "type code 0x60", Edits: []Edit{{"pubrel.go", "\ti += p.fixed.fill(b, i)      // firstByte header", "\tfixed := p.fixed\n\tif !fixed.Has(QoS1) {\n\t\t// bits 3,2,1 and 0 of the fixed header are reserved and must\n\t\t// be 0,0,1,0 [MQTT-3.6.1-1]\n\t\tfixed = bits(PUBREL | QoS1)\n\t}\n\ti += fixed.fill(b, i)        // firstByte header"}}},
 		{Name: "fixed-header-written-by-a-helper-struct", Silent: true, Edits: []Edit{{"auth.go", "\ti += p.fixed.fill(b, i)      // firstByte header\n\ti += remainingLen.fill(b, i) // remaining length", "\ti += fixedHeader{p.fixed, remainingLen}.fill(b, i)"}, {"disconnect.go", "\ti += p.fixed.fill(b, i)      // firstByte header\n\ti += remainingLen.fill(b, i) // remaining length", "\ti += fixedHeader{p.fixed, remainingLen}.fill(b, i)"}, {"packet.go", "\treturn n + m, err\n}\n", "\treturn n + m, err\n}\n\n// fill writes the first byte and the remaining length at position\n// i. Returns the number of bytes that make up the fixed header.\nfunc (f fixedHeader) fill(b []byte, i int) int {\n\tn := i\n\ti += f.fixed.fill(b, i)        // firstByte header\n\ti += f.remainingLen.fill(b, i) // remaining length\n\treturn i - n\n}\n"}, {"pingreq.go", "\ti += p.fixed.fill(b, i)  // firstByte header\n\ti += vbint(0).fill(b, i) // remaining length none", "\ti += fixedHeader{p.fixed, 0}.fill(b, i) // remaining length none"}, {"pingresp.go", "\ti += p.fixed.fill(b, i)  // firstByte header\n\ti += vbint(0).fill(b, i) // remaining length none", "\ti += fixedHeader{p.fixed, 0}.fill(b, i) // remaining length none"}, {"puback.go", "\ti += p.fixed.fill(b, i)      // firstByte header\n\ti += remainingLen.fill(b, i) // remaining length", "\ti += fixedHeader{p.fixed, remainingLen}.fill(b, i)"}, {"pubcomp.go", "\ti += p.fixed.fill(b, i)      // firstByte header\n\ti += remainingLen.fill(b, i) // remaining length", "\ti += fixedHeader{p.fixed, remainingLen}.fill(b, i)"}, {"pubrec.go", "\ti += p.fixed.fill(b, i)      // firstByte header\n\ti += remainingLen.fill(b, i) // remaining length", "\ti += fixedHeader{p.fixed, remainingLen}.fill(b, i)"}, {"pubrel.go", "\ti += p.fixed.fill(b, i)      // firstByte header\n\ti += remainingLen.fill(b, i) // remaining length", "\ti += fixedHeader{p.fixed, remainingLen}.fill(b, i)"}, {"suback.go", "\ti += p.fixed.fill(b, i)      // firstByte header\n\ti += remainingLen.fill(b, i) // remaining length", "\ti += fixedHeader{p.fixed, remainingLen}.fill(b, i)"}, {"subscribe.go", "\ti += p.fixed.fill(b, i)      // firstByte header\n\ti += remainingLen.fill(b, i) // remaining length", "\ti += fixedHeader{p.fixed, remainingLen}.fill(b, i)"}, {"unsuback.go", "\ti += p.fixed.fill(b, i)      // firstByte header\n\ti += remainingLen.fill(b, i) // remaining length", "\ti += fixedHeader{p.fixed, remainingLen}.fill(b, i)"}, {"unsubscribe.go", "\ti += p.fixed.fill(b, i)      // firstByte header\n\ti += remainingLen.fill(b, i) // remaining length", "\ti += fixedHeader{p.fixed, remainingLen}.fill(b, i)"}}},
